@@ -118,6 +118,15 @@ fn main() {
     for s in [Shape::Dot, Shape::Seg(3, 9), Shape::Seg(9, 3), Shape::Seg(4, 4), Shape::Box3 { w: 300, h: 500, d: 1 }, Shape::Box3 { w: 65535, h: 65535, d: 0 }] {
         run(&format!("area (ε := Nat) PROF ({})", shape(s)), move || area(s), |v| ok(bv(*v as i128, 32)));
     }
+    for &a in &u8s {
+        for &b in &[0u8, 1, 3, 100, 255] {
+            run(&format!("use_inline (ε := Nat) PROF {} {}", bv(a as i128, 8), bv(b as i128, 8)), move || use_inline(a, b), |v| ok(bv(*v as i128, 8)));
+        }
+        run(&format!("use_inline_method (ε := Nat) PROF {}", bv(a as i128, 8)), move || use_inline_method(a), |v| ok(bv(*v as i128, 8)));
+    }
+    for &x in &u32s {
+        run(&format!("use_inline_res E PROF {}", bv(x as i128, 32)), move || use_inline_res(x), |v| sres(v, |y| bv(*y as i128, 32)));
+    }
     println!("example : LIMIT = {} := by decide", bv(LIMIT as i128, 32));
     println!("example : SMALL = {} := by decide", bv(SMALL as i128, 8));
     println!("example : Pair.SCALE = {} := by decide", bv(Pair::SCALE as i128, 32));
